@@ -149,6 +149,13 @@ def enumerate_cases(tier):
         faults.append(("glyf_colr_1", "driver:" + mode))
         faults.append(("picosvg", "driver:" + mode))
     yield from _edit_rows()
+    # nothing but an option changes between two invocations of a static build (by flag and by file): only the resolved
+    # configuration tells the font step that it has to run again
+    a, b = [0x1F600], [0x1F601, 0x200D, 0x1F602]
+    for i, (fmt, key, val) in enumerate([("glyf_colr_1", "family", "Second Family"), ("picosvg", "width", 900), ("cbdt", "keep_glyph_names", True),
+                                         ("glyf_colr_0", "upem", 2048), ("untouchedsvg", "linegap", 120), ("glyf", "clipbox_quantization", 50)]):
+        yield {"steps": [{"op": "option", "key": "color_format", "value": fmt}, {"op": "add", "cps": a, "svg": SVG_A}, {"op": "add", "cps": b, "svg": SVG_B}, {"op": "invoke", "fault": None},
+                         {"op": "option", "key": key, "value": val}, {"op": "invoke", "fault": None}], "via_toml": i % 2 == 0}
     # a two-master variable font: options that touch no intermediate file, a source edit, an option and an edit together
     a, b = [0x1F600], [0x1F601, 0x200D, 0x1F602]
     base = [{"op": "option", "key": "color_format", "value": "glyf_colr_1"}, {"op": "add", "cps": a, "svg": SVG_A}, {"op": "add", "cps": b, "svg": SVG_B}, {"op": "invoke", "fault": None}]
